@@ -433,6 +433,17 @@ def check_coefficients(R, rule, fkey, terms, expect, what="", line=None):
     return n
 
 
+def coef_value(atoms):
+    """Numeric value of the literal coefficient of a term (track_coef, optionally track_inv): product of '#x' and '1/#x'."""
+    v = 1.0
+    for x in atoms:
+        if x.startswith("#"):
+            v *= float(x[1:])
+        elif x.startswith("1/#"):
+            v /= float(x[3:])
+    return v
+
+
 def fmt_terms(terms):
     return " ".join(("+" if s > 0 else "-" if s < 0 else "?") + "{" + ",".join(sorted(a)) + "}" for s, a in terms)
 
